@@ -9,6 +9,7 @@ import (
 	"github.com/verily-src/fhirpath-go/fhirpath/internal/expr"
 	"github.com/verily-src/fhirpath-go/fhirpath/internal/funcs"
 	"github.com/verily-src/fhirpath-go/fhirpath/internal/funcs/impl"
+	"github.com/verily-src/fhirpath-go/fhirpath/internal/grammar"
 	"github.com/verily-src/fhirpath-go/fhirpath/system"
 	"github.com/verily-src/fhirpath-go/internal/verifrt"
 )
@@ -60,5 +61,48 @@ func VerifHarness_C16_AcceptanceDoesNotDependOnThePlace() {
 	res := verifCompileCall(table, written, n, verifrt.Choose("place", 6), verifrt.NondetBool("dotted"))
 	want := known && n >= fn.MinArity && n <= fn.MaxArity
 	verifrt.Assert((res.Error == nil && res.Result != nil) == want, "call-accepted-iff-name-known-and-argument-count-within-bounds")
+	verifrt.Reach("end")
+}
+
+// C16: syntax the library does not implement is refused by the compiler with an error - never compiled to a node that
+// computes something else: the union operator, membership, equivalence, $index and $total.
+func VerifHarness_C16_UnimplementedSyntaxIsRefused() {
+	one, two := verifNumberLit("1"), verifNumberLit("2")
+	var tree grammar.IExpressionContext
+	switch verifrt.Choose("syntax", 7) {
+	case 0:
+		e := new(grammar.UnionExpressionContext)
+		grammar.InitEmptyExpressionContext(&e.ExpressionContext)
+		verifAdd(e, one, verifTok("|"), two)
+		tree = e
+	case 1, 2:
+		e := new(grammar.MembershipExpressionContext)
+		grammar.InitEmptyExpressionContext(&e.ExpressionContext)
+		verifAdd(e, one, verifTok([]string{"in", "contains"}[verifrt.Choose("membership", 2)]), two)
+		tree = e
+	case 3:
+		tree = verifBinary("~", one, two)
+	case 4:
+		tree = verifBinary("!~", one, two)
+	case 5:
+		inv := new(grammar.IndexInvocationContext)
+		grammar.InitEmptyInvocationContext(&inv.InvocationContext)
+		verifAdd(inv, verifTok("$index"))
+		term := new(grammar.InvocationTermContext)
+		grammar.InitEmptyTermContext(&term.TermContext)
+		verifAdd(term, inv)
+		tree = verifTermExpr(term)
+	default:
+		inv := new(grammar.TotalInvocationContext)
+		grammar.InitEmptyInvocationContext(&inv.InvocationContext)
+		verifAdd(inv, verifTok("$total"))
+		term := new(grammar.InvocationTermContext)
+		grammar.InitEmptyTermContext(&term.TermContext)
+		verifAdd(term, inv)
+		tree = verifTermExpr(term)
+	}
+	// ... wherever it stands
+	res := (&FHIRPathVisitor{Functions: funcs.Clone()}).Visit(verifPlaced(tree, verifrt.Choose("place", 6))).(*VisitResult)
+	verifrt.Assert(res.Error != nil && res.Result == nil, "unimplemented-syntax-is-a-compile-error")
 	verifrt.Reach("end")
 }
